@@ -22,6 +22,7 @@ from ..engine.flow import Flow
 from ..engine.inline import Inliner
 from ..engine.typestate import EventDomain
 from .armstate import ArmChecker, ARM
+from .common_ops import pinv_cutoff
 from .c05 import r050
 
 ROBOT = 'basic_robotics.kinematics.robot_model'
@@ -172,6 +173,12 @@ def check(model, rep):
                 inner = L.args[0] if (isinstance(L, ast.Call) and src(L.func) in ('np.linalg.pinv', 'ling.pinv', 'np.linalg.inv') and L.args) else None
                 if inner is None:
                     msg = 'inverse statics must apply pinv(J^T); found %s' % src(L)[:60]
+                else:
+                    cut = pinv_cutoff(L)
+                    rep.ob('R06.3', fi, '%s: pseudo-inverse without truncation' % name, cut is None,
+                           'singular values below %s of the largest are discarded: at a configuration where the Jacobian has full rank but a '
+                           'condition number above the reciprocal of that cut-off, mapping the torques back does not return the wrench' % cut,
+                           line=L.lineno)
                 L = resolve(inner, lasg) if inner is not None else None
             if L is not None:
                 is_T = isinstance(L, ast.Attribute) and L.attr == 'T'
